@@ -1,17 +1,17 @@
 SPECIFICATION Spec
 CONSTANTS
   Dirs <- MCDirs
-  TypeEncs <- QuickTypeEncs
-  Maxes <- QuickMaxes
-  Methods <- QuickMethods
+  TypeEncs <- MeshTypeEncs
+  Maxes <- OneMax
+  Methods <- OneMethod
   Shardings <- FullShardings
-  Codes <- QuickCodes
-  MeshDirs <- NoMesh
-  MeshNames <- NoMesh
-  Tables <- NoMesh
+  Codes <- NoCodes
+  MeshDirs <- MeshDirs2
+  MeshNames <- MeshNames2
+  Tables <- Tables2
   MeshRewritesInfo = "keepAll"
   CfgSpace <- QuickCfg
-  MaxLen = 6
+  MaxLen = 1000
   AioForwardsMethod = TRUE
   CopyInfoLayout = "byInfo"
 INVARIANT TypeOK
@@ -20,3 +20,7 @@ INVARIANT RepeatIsNoop
 INVARIANT SuccessMeansComplete
 INVARIANT SourceUntouched
 INVARIANT ConvertPreserves
+INVARIANT InfoScalesPreserved
+INVARIANT MeshKeyStable
+INVARIANT LinksNeedKey
+VIEW ViewNoCount
